@@ -53,6 +53,11 @@ CLAIMED = {
    text="Lean theorems (oracle = the model's random argument): every tiebreak resolution is a strict order of exactly the tied set; without a recorded tiebreak the result is the same for every oracle value; a recorded tiebreak concerns one equal-score group with >= 2 members straddling the last seat, and elected/remaining obey it; 'borda'/'first_place' resolutions are sorted by that score, the oracle deciding only among candidates still tied. Correspondence: the model consumes the recorded tiebreaks as its oracle, so an unrecorded random influence or a spurious record is a disagreement. Monitors: three seeds give identical outcomes unless a tiebreak is recorded; no random primitive is called when none is recorded; recorded sets are tied on the previous tally and obeyed.",
    note="Trusted: Lean kernel + standard axioms; only whether/on which set random.sample is called is checked here (uniformity is C17). Intentionally random rules are out of scope.",
    ref="DESIGN.md §4 C10"),
+
+ "C06": dict(
+   text="Lean theorems for every profile of untied ballots: margins antisymmetric with the listed/unlisted/both-unlisted rule (shares of two candidates add to one); the bounded frontier expansion computes exactly reachability (saturation by cardinality); tiers partition the candidates; every member of a higher tier strictly beats every member of a lower one; no tier can be split; the top tier is dominating and contained in every non-empty dominating set (Smith set); it is a single candidate iff that candidate is a Condorcet winner; DominatingSets elects it. Correspondence: pairwise_dict and dominating_tiers against the model on random and engineered (cycles, nested cycles, exact ties) profiles; monitors: direct margins, brute-force Smith set and split search, Condorcet winner, CondoBorda whole-tiers-then-Borda.",
+   note="Trusted: Lean kernel + standard axioms; networkx has_path replaced by the model's own closure (proved). PARTIAL: the code computes margins by expanding short ballots into all completions (ballot_fill); that this equals the declarative share is not a theorem yet - the model's enumeration mirror h2hFill is compared with the declarative h2h on every case by the driver (fill_agrees) and both with the implementation. CondoBorda's straddling-tier choice is covered by C10's scored-tiebreak theorem plus the monitor.",
+   ref="DESIGN.md §4 C06"),
 }
 TECH = "Lean 4 kernel-checked theorems over a hand-written executable model + differential correspondence check of the model against /repo/src + independent Python monitors"
 
